@@ -104,6 +104,60 @@ class LeafCoro(cohdl.Entity):
             self.o <<= self.a + self.o
 
 
+class LeafBase(cohdl.Entity):
+    a = Port.input(Unsigned[3])
+    o = Port.output(Unsigned[3])
+
+    def architecture(self):
+        @std.concurrent
+        def logic():
+            self.o <<= self.a + 1
+
+
+class LeafDerivedIn(LeafBase):
+    m = Port.input(Unsigned[3])
+
+    def architecture(self):
+        @std.concurrent
+        def logic():
+            self.o <<= (self.a + 1) & self.m
+
+
+class LeafDerivedOut(LeafBase):
+    f = Port.output(Bit)
+
+    def architecture(self):
+        @std.concurrent
+        def logic():
+            self.o <<= self.a + 2
+            self.f <<= self.a[0]
+
+
+class LeafSel(cohdl.Entity):
+    a = Port.input(Unsigned[3])
+    b = Port.input(Unsigned[3])
+    en = Port.input(Bit)
+    o = Port.output(Unsigned[3])
+    p = Port.output(BitVector[2])
+
+    def architecture(self):
+        @std.concurrent
+        def logic():
+            self.o <<= self.a if self.en else self.b
+            self.p <<= self.b[2:1]
+
+
+class LeafInit(cohdl.Entity):
+    clk = Port.input(Bit)
+    reset = Port.input(Bit)
+    o = Port.output(Unsigned[3], default=5)
+
+    def architecture(self):
+        @std.sequential(std.Clock(self.clk), std.Reset(self.reset))
+        def proc():
+            self.o <<= self.o + 1
+
+
 class Mid(cohdl.Entity):
     clk = Port.input(Bit)
     a = Port.input(Unsigned[3])
@@ -169,7 +223,42 @@ TREES = [
       "@std.sequential(std.Clock(self.clk))", "async def p2():", "    await self.v[0]", "    r2.next = self.y", "    await cohdl.true", "    r2.next = self.y + r2",
       "@std.concurrent", "def l():", "    self.o1 <<= r1", "    self.o2 <<= r2", "    self.ob <<= f_bits(self.v[3:2])"],
      {"LeafCoro", "LeafBits"}),
+    ("kwargs-reordered", False,
+     ["pb = Signal[BitVector[2]](name='pb')", "pc = Signal[BitVector[2]](name='pc')", "LeafSel(a=self.x, b=self.y, en=self.en, o=self.o1, p=pb)", "LeafSel(p=pc, o=self.o2, b=self.x, en=self.v[0], a=self.y)",
+      "LeafBits(o=self.ob, x=pc)"],
+     ["@std.concurrent", "def l():", "    self.o1 <<= self.x if self.en else self.y", "    self.o2 <<= self.y if self.v[0] else self.x", "    self.ob <<= f_bits(self.x[2:1])"],
+     {"LeafSel", "LeafBits"}),
+    ("entity-inheritance", False,
+     ["fb = Signal[Bit](name='fb')", "t = Signal[Unsigned[3]](name='t')", "LeafBase(a=self.x, o=t)", "LeafDerivedIn(a=t, m=self.y, o=self.o1)", "LeafDerivedOut(a=self.y, o=self.o2, f=fb)",
+      "@std.concurrent", "def l():", "    self.ob <<= fb @ fb"],
+     ["@std.concurrent", "def l():", "    self.o1 <<= ((self.x + 1) + 1) & self.y", "    self.o2 <<= self.y + 2", "    self.ob <<= self.y[0] @ self.y[0]"],
+     {"LeafBase", "LeafDerivedIn", "LeafDerivedOut"}),
+    ("expression-and-slice-actuals", False,
+     ["sb = Signal[BitVector[4]](name='sb')", "su = Signal[Unsigned[4]](name='su')", "LeafBits(x=self.v[2:1], o=sb[2:1])", "LeafMix(a=su[2:0], b=self.x, o=self.o2)",
+      "@std.concurrent", "def l():", "    LeafComb(a=self.x, b=self.y + 1, o=su[2:0])", "    self.o1 <<= su[2:0]", "    self.ob <<= sb[2:1]"],
+     ["@std.concurrent", "def l():", "    self.o1 <<= f_comb(self.x, self.y + 1)", "    self.o2 <<= f_mix(f_comb(self.x, self.y + 1), self.x)", "    self.ob <<= f_bits(self.v[2:1])"],
+     {"LeafComb", "LeafMix", "LeafBits"}),
+    ("port-default-and-reset", True,
+     ["LeafInit(clk=self.clk, reset=self.en, o=self.o1)", "LeafInit(clk=self.clk, reset=self.v[1], o=self.o2)", "LeafBits(x=self.v[3:2], o=self.ob)"],
+     ["r1 = Signal[Unsigned[3]](5, name='r1')", "r2 = Signal[Unsigned[3]](5, name='r2')",
+      "@std.sequential(std.Clock(self.clk), std.Reset(self.en))", "def p1():", "    r1.next = r1 + 1",
+      "@std.sequential(std.Clock(self.clk), std.Reset(self.v[1]))", "def p2():", "    r2.next = r2 + 1",
+      "@std.concurrent", "def l():", "    self.o1 <<= r1", "    self.o2 <<= r2", "    self.ob <<= f_bits(self.v[3:2])"],
+     {"LeafInit", "LeafBits"}),
 ]
+
+
+U3, BV2, SL = "unsigned(2 downto 0)", "std_logic_vector(1 downto 0)", "std_logic"
+LEAF_DECLARED = {
+    "LeafComb": [("a", "in", U3), ("b", "in", U3), ("o", "out", U3)], "LeafMix": [("a", "in", U3), ("b", "in", U3), ("o", "out", U3)],
+    "LeafBits": [("x", "in", BV2), ("o", "out", BV2)], "LeafReg": [("clk", "in", SL), ("a", "in", U3), ("o", "out", U3)],
+    "LeafCnt": [("clk", "in", SL), ("en", "in", SL), ("o", "out", U3)], "LeafCoro": [("clk", "in", SL), ("go", "in", SL), ("a", "in", U3), ("o", "out", U3)],
+    "Mid": [("clk", "in", SL), ("a", "in", U3), ("b", "in", U3), ("o", "out", U3)],
+    "LeafBase": [("a", "in", U3), ("o", "out", U3)], "LeafDerivedIn": [("a", "in", U3), ("o", "out", U3), ("m", "in", U3)],
+    "LeafDerivedOut": [("a", "in", U3), ("o", "out", U3), ("f", "out", SL)],
+    "LeafSel": [("a", "in", U3), ("b", "in", U3), ("en", "in", SL), ("o", "out", U3), ("p", "out", BV2)],
+    "LeafInit": [("clk", "in", SL), ("reset", "in", SL), ("o", "out", U3)],
+}
 
 
 def design(name, body):
@@ -186,17 +275,20 @@ INPUTS = {"x": 3, "y": 3, "en": 1, "v": 4}
 OUTPUTS = ["o1", "o2", "ob"]
 
 
-def compare(stats, lib_h, lib_f, sequential, K, timeout_ms=120000):
+def compare(stats, lib_h, lib_f, sequential, K, timeout_ms=120000, INPUTS=None, OUTPUTS=None):
     """-> ('ok', n) | ('diff', info) | ('unknown', why)"""
+    INPUTS = globals()["INPUTS"] if INPUTS is None else INPUTS
+    OUTPUTS = globals()["OUTPUTS"] if OUTPUTS is None else OUTPUTS
     sh, sf = VS.Sim(lib_h, tag="!H"), VS.Sim(lib_f, tag="!F")
-    zero = {"clk": 0, **{n: 0 for n in INPUTS}}
+    CLK0 = {"clk": 0} if any(p[0].lower() == "clk" for p in lib_h.order[-1].ports) else {}
+    zero = {**CLK0, **{n: 0 for n in INPUTS}}
     syms = []
     diff = False
     if not sequential:
         ins = {n: z3.BitVec(f"I!{n}", w) for n, w in INPUTS.items()}
         syms.append(ins)
         for s in (sh, sf):
-            s.elaborate({"clk": 0, **ins})
+            s.elaborate({**CLK0, **ins})
         for o in OUTPUTS:
             diff = D.b_or(diff, D.b_not(D.v_eq(sh.read(o).x, sf.read(o).x, len_of(sh, o))))
     else:
@@ -224,7 +316,7 @@ def compare(stats, lib_h, lib_f, sequential, K, timeout_ms=120000):
         _install_init(s, init)
         log = []
         if not sequential:
-            s.elaborate({"clk": 0, **trace[0]})
+            s.elaborate({**CLK0, **trace[0]})
             log.append({o: s.read(o).x for o in OUTPUTS})
         else:
             s.elaborate(zero)
@@ -237,6 +329,78 @@ def compare(stats, lib_h, lib_f, sequential, K, timeout_ms=120000):
         return "unknown", "counterexample does not reproduce concretely"
     first = next(i for i, (a, b) in enumerate(zip(*outs)) if a != b)
     return "diff", {"clock": first, "trace": trace[:first + 1], "hierarchical": outs[0][first], "inlined": outs[1][first]}
+
+
+# ---------------------------------------------------------------- connection matrix
+CONN_HEADER = "from __future__ import annotations\nimport cohdl\nfrom cohdl import Bit, BitVector, Unsigned, Signed, Port, Signal, std\n\n"
+
+
+def _tsrc(kind, w):
+    return "Bit" if kind == "Bit" else f"{kind}[{w}]"
+
+
+def conn_types(widths):
+    ts = [("Bit", 1)]
+    for w in widths:
+        ts += [("BitVector", w), ("Unsigned", w), ("Signed", w)]
+    return ts
+
+
+def conn_design(ts, tt, direction, hier):
+    """src : ts  --->  dst : tt ; through a pass-through leaf whose ports have the type of the far side
+    in : Leaf[tt](a=src (actual ts -> formal tt), o=dst)      out: Leaf[ts](a=src, o=dst (formal ts -> actual tt))"""
+    lt = tt if direction == "in" else ts
+    lines = [CONN_HEADER, "class Pass(cohdl.Entity):", f"    a = Port.input({_tsrc(*lt)})", f"    o = Port.output({_tsrc(*lt)})", "    def architecture(self):",
+             "        @std.concurrent", "        def logic():", "            self.o <<= self.a", "",
+             "class Top(cohdl.Entity):", f"    src = Port.input({_tsrc(*ts)})", f"    dst = Port.output({_tsrc(*tt)})", "    def architecture(self):"]
+    if hier:
+        lines += ["        Pass(a=self.src, o=self.dst)"]
+    else:
+        lines += ["        @std.concurrent", "        def logic():", "            self.dst <<= self.src"]
+    return "\n".join(lines) + "\n"
+
+
+def run_connections(rep, wd, widths, counts):
+    for ts in conn_types(widths):
+        for tt in conn_types(widths):
+            tf, ef = compile_design(wd, conn_design(ts, tt, "in", False), "Top", "c12cf")
+            rep.stats.programs += 1
+            lib_f = None
+            if tf is not None:
+                try:
+                    lib_f = VS.Library(tf)
+                    VS.Sim(lib_f)
+                except Illegal:
+                    lib_f = None  # the plain assignment itself is C05's subject
+            for direction in ("in", "out"):
+                key = f"connect-{direction}|{_tsrc(*ts)}->{_tsrc(*tt)}"
+                src = conn_design(ts, tt, direction, True)
+                th, eh = compile_design(wd, src, "Top", "c12ch")
+                rep.stats.programs += 1
+                if th is None:
+                    counts["conn-rejected"] = counts.get("conn-rejected", 0) + 1
+                    continue
+                if tf is None:
+                    rep.violation(f"conn-accepted|{direction}|{ts[0]}->{tt[0]}|{'w=' if ts[1] == tt[1] else ('w<' if ts[1] < tt[1] else 'w>')}",
+                                  f"{key}: port connection accepted although the plain assignment dst <<= src between these types is a compile-time error ({str(ef)[:120]})", {"source": src, "vhdl": th})
+                    continue
+                try:
+                    lib_h = VS.Library(th)
+                    for d in lib_h.order:
+                        VS.Sim(lib_h, top=d.name)
+                except Illegal as e:
+                    rep.violation(f"conn-illegal|{direction}|{ts[0]}->{tt[0]}|{e.rule}", f"{key}: emitted VHDL illegal: {e}", {"source": src, "vhdl": th})
+                    continue
+                if lib_f is None:
+                    continue
+                status, info = compare(rep.stats, lib_h, lib_f, False, 1, INPUTS={"src": ts[1]}, OUTPUTS=["dst"])
+                if status == "ok":
+                    counts["conn-ok"] = counts.get("conn-ok", 0) + 1
+                    rep.stats.nontrivial.add(key)
+                elif status == "diff":
+                    rep.violation(f"conn-value|{direction}|{ts[0]}->{tt[0]}", f"{key}: connected value differs from the assigned one: {info['hierarchical']} vs {info['inlined']} for {info['trace'][-1]}", {"source": src, "vhdl": th, **info})
+                else:
+                    rep.inconclusive_query(f"{key}: {info}")
 
 
 def len_of(sim, name):
@@ -270,6 +434,11 @@ def run(tier: str) -> int:
             ok, got = interface_ok(lib_h, "Top")
             if not ok:
                 rep.violation(f"interface|{key}", f"{key}: emitted interface differs from the declared ports: {got}", {"vhdl": th})
+            for d in lib_h.order:
+                want = LEAF_DECLARED.get(d.name)
+                got_l = [(n, m, str(t)) for n, m, t in d.ports]
+                if want is not None and sorted(got_l) != sorted(want):
+                    rep.violation(f"interface|{key}|{d.name}", f"{key}: unit {d.name} is emitted with ports {got_l}, declared {want}", {"vhdl": th})
             units = [d.name for d in lib_h.order]
             if len(units) != len(set(u.lower() for u in units)) or set(units) - {"Top"} != templates or units[-1] != "Top":
                 rep.violation(f"units|{key}", f"{key}: emitted units {units}, expected one unit per template {sorted(templates)} followed by Top", {"vhdl": th})
@@ -283,8 +452,10 @@ def run(tier: str) -> int:
                 rep.violation(f"behaviour|{key}", f"{key}: hierarchical design differs from the inlined one at clock {info['clock']}: {info['hierarchical']} vs {info['inlined']} for inputs {info['trace'][-1]}", {"vhdl_hier": th, "vhdl_flat": tf, **info})
             else:
                 rep.inconclusive_query(f"{key}: {info}")
+        run_connections(rep, wd, [2, 3] if tier == "quick" else [1, 2, 3, 4], counts)
         rep.stats.units |= {"cohdl._core._context.Entity.__init__", "frontend ConvertPythonInstance.apply (templates)", "backend EntityInst (port map), Library.from_top_entity (unit order)", "_vhdl_assembler (ir.Entity / EntityTemplate)"}
         rep.assumptions += ["bounded for clocked trees: K=%d clocks from power-up, all registers have declared defaults; combinational trees: all inputs" % K,
+                            "connection matrix: every ordered pair of Bit/BitVector/Unsigned/Signed (listed widths) bound through an input and through an output port of a pass-through leaf: rejected, or legal text equal to the plain assignment dst <<= src for all values; accepted although the assignment is rejected = violation",
                             "trees: depth <= 3, fan-out <= 3, repeated templates, slice and typed-view actuals, instances inside a concurrent context, combinational / registered / counter / coroutine leaves",
                             "the inlined design calls the same Python leaf functions; its own correctness is the subject of C01-C03"]
         return rep.finish({
